@@ -957,8 +957,17 @@ def scenario_subspace(rng, props, fails, stats):
     if pg_norm(x, g, lb, ub) == 0:
         return {"n": n}
     B = _dense_B(mats, n)
+    # the same memory is used for two successive calls (as in a run where an update was skipped): warm-up call first
+    for rep_ in range(int(rng.integers(0, 2))):
+        x2 = start_in(rng, lb, ub)
+        g2 = rng.normal(size=n)
+        if pg_norm(x2, g2, lb, ub) > 0:
+            xcp2, c2 = get_cauchy_point(x2, g2, lb, ub, mats, 1 if m else 0, -1, None)
+            fv2, Z2, A2 = get_freev(xcp2, lb, ub, 1, None, -1, None)
+            subspace_minimization(x2, xcp2, fv2, Z2, A2, c2, g2, lb, ub, mats)
     xcp, c = get_cauchy_point(x, g, lb, ub, mats, 1 if m else 0, -1, None)
-    fv, Z, A = get_freev(xcp, lb, ub, 1, None, -1, None)
+    prev = np.flatnonzero(rng.random(n) < 0.5) if rng.random() < 0.7 else None
+    fv, Z, A = get_freev(xcp, lb, ub, 1 if prev is not None else 0, prev, -1, None)
     xc0 = xcp.copy()
     xbar = subspace_minimization(x, xcp, fv, Z, A, c, g, lb, ub, mats)
     stats["runs"] += 1
